@@ -2,6 +2,7 @@ package main
 
 import (
 	"fmt"
+	"strings"
 	"sync"
 
 	"github.com/openacid/slim/trie"
@@ -75,6 +76,8 @@ func raceC11(scn *Scenario) *RunResult {
 		return res
 	}
 	subject, twin := inst[0], inst[1]
+	retainCheck = true
+	defer func() { retainCheck = false }()
 	refs, _ := soloRefs(twin, c.Tasks)
 
 	// a unit that does not terminate alone says nothing about concurrency: drop it
@@ -115,6 +118,11 @@ func raceC11(scn *Scenario) *RunResult {
 			ref := refs[u.key()]
 			if soloCapped(ref.out) {
 				continue
+			}
+			if strings.Contains(outs[ti][ui], "RETAINED-KEY-OVERWRITTEN") && res.Viol == nil {
+				res.Viol = &Violation{Prop: "C11", Oracle: "iterator-key-overwritten", Where: "unit=" + u.Kind,
+					Detail:   fmt.Sprintf("race lane: goroutine %d unit %d %s: the key an iterator yielded last was overwritten after the iterator was dropped (collector and finalizers ran, another iterator was walked): iterators interfere through recycled memory", ti, ui, u.short()),
+					Expected: "the key as it was yielded", Got: clip(outs[ti][ui], 400)}
 			}
 			if outs[ti][ui] != ref.out && res.Viol == nil {
 				res.Viol = &Violation{Prop: "C11", Oracle: "unit-diverged", Where: "unit=" + u.Kind,
